@@ -281,7 +281,7 @@ class Operands(Family):
     nontrivial_rule = 'every case (operand encodings at the number-format boundaries)'
 
     def shards(self, tier):
-        return [('un',), ('bin', 0), ('bin', 1), ('bin', 2), ('bin', 3), ('within', 0), ('within', 1), ('within', 2), ('pick',), ('hash', 0), ('hash', 1), ('ripemd', 0), ('ripemd', 1), ('ripemd', 2)]
+        return [('un',), ('bin', 0), ('bin', 1), ('bin', 2), ('bin', 3), ('within', 0), ('within', 1), ('within', 2), ('pick',), ('hash', 0), ('hash', 1), ('ripemd', 0), ('ripemd', 1), ('ripemd', 2), ('revisit',)]
 
     def cases(self, shard, tier):
         n = len(NUMS)
@@ -308,6 +308,10 @@ class Operands(Family):
             for op in HASHES[shard[1]::2] + [0x82, 0x87]:
                 for l in list(range(0, 131)) + [519, 520]:
                     yield ('hash', l, op)
+        elif shard[0] == 'revisit':
+            for op in (0xa6, 0xa9):
+                for n in (600, 1100):
+                    yield ('revisit', n, op)
         else:
             for l in range(0, 601):
                 yield ('hash', l, 0xa6 if shard[1] == 0 else (0xa6 + 1000 * shard[1]))
@@ -322,6 +326,14 @@ class Operands(Family):
             _, depth, idx, op = case
             init = tuple(bytes([0x20 + i]) for i in range(depth)) + (idx,)
             return compare_eval(bytes([op]), init, NONE, 'PICK/ROLL'), True
+        if case[0] == 'revisit':
+            # n distinct messages are hashed one after the other in this process, then the first 150 again: the digest of a
+            # message never depends on what was hashed in between
+            _, n, op = case
+            msgs = [i.to_bytes(2, 'big') + C.fill(i % 50, i) for i in range(n)]
+            for d in msgs + msgs[:150]:
+                compare_eval(bytes([op]), (d,), NONE, 'hash opcode %#x in a run of %d distinct messages followed by the first ones again' % (op, n))
+            return 'revisit', True, n + 150
         _, l, op = case
         fillv = 0
         if op >= 1000:
@@ -508,7 +520,7 @@ class SignatureOps(Family):
                     yield ('sep', pos, signed_from)
 
     def check(self, case):
-        tx = L.spend_tx()
+        tx = None          # the shared immutable / mutable spending transaction, chosen by the script (scriptlib.default_spend_tx)
         m = L.TX_MODEL
         cs = L.make_checksig(m, 0)
         kind = case[0]
